@@ -154,7 +154,7 @@ class TDevice(Device):
     cost calculation. Note `t_init` is the temperature in the last time-slot of last planning
     window, *not* the first time-slot of this planning window.
     '''
-    t_base = base_soc(t_init, s=sustainment, l=len(self)) + soc(t_external, s=sustainment, e=(1-sustainment))
+    t_base = base_soc(t_init, s=sustainment, l=len(self)) + (1-sustainment)*soc(t_external, s=sustainment, e=1)
     return t_base
 
   def to_dict(self):
